@@ -156,4 +156,135 @@ theorem exclSpec_plain_binds (a a' : List UInt8) (ex : List HashRange) (hp : Pla
   ⟨exclSpec_plain_length a a' ex hp hw hw' h,
    exclSpec_eq_bytes a a' ex (exclSpec_plain_length a a' ex hp hw hw' h) h⟩
 
+/-! ### with BMFF offset markers: the selection still fixes the length
+
+The markers are hashed in-line, so in general two streams of different length can have the same
+selection (eight data bytes that spell an offset). Under *one* exclusion list this cannot
+happen as soon as some byte is hashed: lengthening the stream never removes a marker copy and
+adds at least one byte per new position. -/
+
+/-- the chunk of the specification at position `x` -/
+def specChunk (d : List UInt8) (hr : List HashRange) (x : Nat) : List UInt8 :=
+  (List.replicate (markerCopies d.length hr x) (be64 x)).flatten ++
+    (if included d.length hr x then byteAt d x else [])
+
+theorem exclSpec_eq_chunks (d : List UInt8) (hr : List HashRange) :
+    exclSpec d hr = (List.range d.length).flatMap (specChunk d hr) := rfl
+
+theorem included_mono (hr : List HashRange) (n n' x : Nat) (hx : x < n) (hn : n ≤ n') :
+    included n' hr x = included n hr x := by
+  have h1 : x < n' := by omega
+  simp [included, hx, h1]
+
+theorem replicate_flatten_len_mono {α : Type} (l : List α) (k k' : Nat) (h : k ≤ k') :
+    (List.replicate k l).flatten.length ≤ (List.replicate k' l).flatten.length := by
+  have e : ∀ k, (List.replicate k l).flatten.length = k * l.length := by intro k; simp
+  rw [e, e]
+  exact Nat.mul_le_mul_right _ h
+
+theorem markerCopies_mono (hr : List HashRange) (n n' x : Nat) (hx : x < n) (hn : n ≤ n')
+    (hany : ∃ y, y < n ∧ excluded hr y = false) :
+    markerCopies n hr x ≤ markerCopies n' hr x := by
+  obtain ⟨y, hy, hey⟩ := hany
+  have hinc : ∀ z, z < n → included n' hr z = included n hr z := fun z hz => included_mono hr n n' z hz hn
+  have hA : (List.range n).any (included n hr) = true :=
+    List.any_eq_true.2 ⟨y, List.mem_range.2 hy, by simp [included, hy, hey]⟩
+  have hA' : (List.range n').any (included n' hr) = true :=
+    List.any_eq_true.2 ⟨y, List.mem_range.2 (by omega), by simp [included, hey]; omega⟩
+  unfold markerCopies
+  rw [hinc x hx]
+  split
+  · exact Nat.le_refl _
+  · have hb : between n hr x = true → between n' hr x = true := by
+      unfold between
+      rw [hA, hA']
+      simp only [if_true, Bool.and_eq_true]
+      rintro ⟨h1, h2⟩
+      constructor
+      · unfold includedBelow at *
+        obtain ⟨z, hz, hiz⟩ := List.any_eq_true.1 h1
+        have hz' := List.mem_range.1 hz
+        exact List.any_eq_true.2 ⟨z, hz, by rw [hinc z (by omega)]; exact hiz⟩
+      · unfold includedAbove at *
+        obtain ⟨z, hz, hiz⟩ := List.any_eq_true.1 h2
+        rw [List.mem_range'_1] at hz
+        exact List.any_eq_true.2 ⟨z, by rw [List.mem_range'_1]; omega, by rw [hinc z (by omega)]; exact hiz⟩
+    by_cases hc : ((markersOf hr).contains x && between n hr x) = true
+    · have : ((markersOf hr).contains x && between n' hr x) = true := by
+        simp only [Bool.and_eq_true] at hc ⊢
+        exact ⟨hc.1, hb hc.2⟩
+      rw [if_pos hc, if_pos this]
+      exact Nat.le_refl _
+    · rw [if_neg hc]
+      exact Nat.zero_le _
+
+theorem specChunk_len_mono (a a' : List UInt8) (hr : List HashRange) (x : Nat) (hx : x < a.length)
+    (hn : a.length ≤ a'.length) (hany : ∃ y, y < a.length ∧ excluded hr y = false) :
+    (specChunk a hr x).length ≤ (specChunk a' hr x).length := by
+  unfold specChunk
+  rw [List.length_append, List.length_append, included_mono hr a.length a'.length x hx hn]
+  have h1 := replicate_flatten_len_mono (be64 x) _ _ (markerCopies_mono hr a.length a'.length x hx hn hany)
+  have h2 : (if included a.length hr x = true then byteAt a x else []).length =
+      (if included a.length hr x = true then byteAt a' x else []).length := by
+    split
+    · rw [byteAt_length a x hx, byteAt_length a' x (by omega)]
+    · rfl
+  omega
+
+theorem chunks_prefix_le (a a' : List UInt8) (hr : List HashRange) (hn : a.length ≤ a'.length)
+    (hany : ∃ y, y < a.length ∧ excluded hr y = false) : ∀ m, m ≤ a.length →
+    ((List.range m).flatMap (specChunk a hr)).length ≤ ((List.range m).flatMap (specChunk a' hr)).length := by
+  intro m
+  induction m with
+  | zero => intro _; simp
+  | succ m ih =>
+    intro hm
+    rw [List.range_succ, List.flatMap_append, List.flatMap_append, List.length_append, List.length_append]
+    have := specChunk_len_mono a a' hr m (by omega) hn hany
+    have := ih (by omega)
+    simp only [List.flatMap_cons, List.flatMap_nil, List.append_nil]
+    omega
+
+theorem chunks_tail_ge (a' : List UInt8) (hr : List HashRange) (n : Nat) (hw : Within hr n) :
+    ∀ k, n + k ≤ a'.length →
+    ((List.range n).flatMap (specChunk a' hr)).length + k ≤
+      ((List.range (n + k)).flatMap (specChunk a' hr)).length := by
+  intro k
+  induction k with
+  | zero => intro _; exact Nat.le_refl _
+  | succ k ih =>
+    intro hk
+    have e : n + (k + 1) = (n + k) + 1 := by omega
+    rw [e, List.range_succ, List.flatMap_append, List.length_append]
+    have := ih (by omega)
+    have hinc : included a'.length hr (n + k) = true := by
+      simp [included, within_not_excluded hr n (n + k) hw (by omega)]; omega
+    have h1 : 1 ≤ (specChunk a' hr (n + k)).length := by
+      unfold specChunk
+      rw [List.length_append, hinc, if_pos rfl, byteAt_length a' (n + k) (by omega)]
+      omega
+    simp only [List.flatMap_cons, List.flatMap_nil, List.append_nil]
+    omega
+
+/-- **Length from the selection, markers included.** Same exclusion list (ranges and offset
+markers), every range inside both streams, and some byte of the shorter stream is hashed: equal
+selections force equal lengths. -/
+theorem exclSpec_markers_length (a a' : List UInt8) (ex : List HashRange)
+    (hw : Within ex a.length) (hw' : Within ex a'.length)
+    (hany : ∃ y, y < a.length ∧ excluded ex y = false)
+    (hany' : ∃ y, y < a'.length ∧ excluded ex y = false)
+    (h : exclSpec a ex = exclSpec a' ex) : a.length = a'.length := by
+  have hl := congrArg List.length h
+  rw [exclSpec_eq_chunks, exclSpec_eq_chunks] at hl
+  rcases Nat.lt_trichotomy a.length a'.length with hlt | heq | hgt
+  · have h1 := chunks_prefix_le a a' ex (by omega) hany a.length (Nat.le_refl _)
+    have h2 := chunks_tail_ge a' ex a.length hw (a'.length - a.length) (by omega)
+    rw [show a.length + (a'.length - a.length) = a'.length by omega] at h2
+    omega
+  · exact heq
+  · have h1 := chunks_prefix_le a' a ex (by omega) hany' a'.length (Nat.le_refl _)
+    have h2 := chunks_tail_ge a ex a'.length hw' (a.length - a'.length) (by omega)
+    rw [show a'.length + (a.length - a'.length) = a.length by omega] at h2
+    omega
+
 end C2pa.C01
